@@ -8,7 +8,7 @@
 #   free slot, suspended task, enqueue with RML workers as logical threads) on logical threads under seeded random / PCT cooperative schedules
 #   with total futex emulation, optionally with emulated store buffers, validated by TLC (TraceWake): a state in which nothing can run although
 #   a blocked thread's condition holds or an enqueued task is pending is rejected.
-import os, re, json, vlib
+import schedlib, os, re, json, vlib
 SDY = os.path.join(vlib.SPEC, 'sync'); SDS = os.path.join(vlib.SPEC, 'sched')
 SC_Q = ['mon_all', 'mon_all22', 'mon_one', 'mon_pred', 'mon_abort', 'bq', 'bq2', 'bq13', 'mtx', 'rwm', 'rwu', 'tgwait', 'exec1x3', 'suspF',
         'enq', 'enq1', 'enq0', 'enq0', 'enq03', 'enqL1', 'enq1L1', 'enqL2x2', 'enqx2']
@@ -80,32 +80,7 @@ def run(res, tier, seed):
     if thorough:
         vlib.model_check(res, SDS, 'MCd', 'Demand_3.cfg', timeout=1500)
     # ---- enqueue container: every edge of TaskStream replayed on the real task_stream (population word and lane mutex flags compared per step)
-    ts_exe = vlib.build_harness('h_taskstream', ['sched/h_taskstream.cpp'])
-    for cfg, args in [('TaskStream_a.cfg', ['1', '1', '1'])] + ([('TaskStream_b.cfg', ['2', '1', '2'])] if thorough else []):
-        tag = 'c02-' + cfg[:-4]
-        os.makedirs(os.path.join(vlib.BUILD, 'graphs'), exist_ok=True)
-        dot = os.path.join(vlib.BUILD, 'graphs', tag + '.dot')
-        r = vlib.tlc(SDS, 'MCts', cfg, dump=dot, deadlock=False, timeout=3000, xmx='24g'); res.add_tlc(r, 'TaskStream:' + cfg); vlib.tlc_must_hold(r, cfg)
-        if r.violation:
-            raise vlib.HarnessFailure('TaskStream model violates %s' % r.violation)
-        nodes, edges, init = vlib.parse_dot(dot, ['pop', 'mtx'], raw=True); os.unlink(dot)
-
-        def conv(v):
-            f = v.split('\x1f'); m = re.findall(r'(TRUE|FALSE)', f[1])
-            return '%d,%d,%d' % (sum(1 << int(x) for x in re.findall(r'\d+', f[0])), m[0] == 'TRUE', m[1] == 'TRUE')
-        nodes = {k: conv(v) for k, v in nodes.items()}
-        paths, cov, tot = vlib.edge_cover(nodes, edges, init)
-        sched = os.path.join(vlib.BUILD, 'graphs', tag + '.sched'); vlib.write_schedules(paths, sched)
-        sums, tfs = vlib.run_harness_parallel(lambda part, tf: [ts_exe, part, tf] + args, sched, tag, timeout=2500)
-        ssum = vlib.sum_dicts(sums); os.unlink(sched)
-        vlib.validate_and_report(res, SDS, 'TraceTaskPool', 'TraceTaskPool.cfg', vlib.collect_traces(tfs), tag,
-                                 lambda tr: 'replay of TaskStream on the real task_stream: an enqueued task was handed out twice or is stranded in a lane whose population bit is clear: ' + json.dumps([e for e in tr if not e['e'].startswith('#')]),
-                                 sig_fn=lambda tr: 'taskstream:' + ('stuck' if any(e['e'] == 'Stuck' for e in tr) else 'dup-or-loss'))
-        vlib.log('%s: %d states, %d/%d edges in %d schedules, %d real steps, drift %d, mismatch %d' % (tag, r.distinct, cov, tot, len(paths), ssum['steps'], ssum['drift'], ssum['state_mismatch']))
-        res.extra['spec_edges_replayed'] = res.extra.get('spec_edges_replayed', 0) + cov; res.extra['spec_edges_total'] = res.extra.get('spec_edges_total', 0) + tot
-        res.extra['drift_steps'] = res.extra.get('drift_steps', 0) + ssum['drift'] + ssum['state_mismatch']
-        if ssum['drift'] + ssum['state_mismatch']:
-            print('SPEC-DRIFT property=C02 task_stream replay: %d paths disagree with TaskStream.tla' % (ssum['drift'] + ssum['state_mismatch']))
+    schedlib.replay_taskstream(res, 'C02', [('TaskStream_a.cfg', ['1', '1', '1'])] + ([('TaskStream_b.cfg', ['2', '1', '2'])] if thorough else []))
     # ---- real code
     n = 240 if not thorough else 4000; nh = 24 if not thorough else 400
     os.makedirs(os.path.join(vlib.BUILD, 'traces'), exist_ok=True)
